@@ -213,6 +213,11 @@ static void run_oneshot(const KV *kv, const P *p)
 			const ENT_DRAW *d = ent_get(1); P q = *p; if (d && d->len == 16) { q.iv = (uint8_t *)d->data; q.ivlen = 16; }
 			vt_begin("Call"); vt_int("id", kv_int(kv, "id", 0)); ev_params(&q);
 			vt_bytes("in", p->msg, n); vt_int("rc", rc); vt_int("cap", (long)cap); vt_bytes("out", out, rc == 1 ? ol : 0); vt_end(); skip_out_event = 1;
+		} else if (kv_has(kv, "hlen")) {      // through the record-level wrapper: header (with the length field the script says) || body, handed over with its real size
+			long hl = kv_int(kv, "hlen", (long)n); uint8_t *rec = vh_exact(5 + n), *orec = vh_exact(5 + n + 64); size_t orl = 0;
+			memcpy(rec, p->hdr3, 3); rec[3] = (uint8_t)(hl >> 8); rec[4] = (uint8_t)hl; memcpy(rec + 5, in, n);
+			rc = tls_record_decrypt(&h, &dk, p->seq, rec, 5 + n, orec, &orl);
+			if (rc == 1 && orl >= 5) { ol = orl - 5; if (ol <= cap) memcpy(out, orec + 5, ol); else rc = -77; }
 		} else { hdr[3] = (uint8_t)(n >> 8); hdr[4] = (uint8_t)n; rc = tls_cbc_decrypt(&h, &dk, p->seq, hdr, in, n, out, &ol); }
 	}
 	else if (!strcmp(f, "tls13_enc")) { block_cipher_set_encrypt_key(&bek, BLOCK_CIPHER_sm4(), p->key); rc = tls13_gcm_encrypt(&bek, p->iv, p->seq, (int)p->type, in, n, (size_t)p->padlen, out, &ol); }
